@@ -13,7 +13,8 @@ use std::io::{Read, Seek, SeekFrom};
 use binrw::BinRead;
 
 use crate::api::RootAdt;
-use crate::chunk_discovery::ChunkDiscovery;
+use crate::chunk_discovery::{ChunkDiscovery, ChunkLocation};
+use crate::chunk_header::read_chunk_data;
 use crate::chunk_id::ChunkId;
 use crate::chunks::mh2o::{Mh2oAttributes, Mh2oChunk, Mh2oEntry, Mh2oHeader, Mh2oInstance};
 use crate::chunks::{
@@ -253,8 +254,10 @@ pub fn parse_root_adt<R: Read + Seek>(
     ) {
         if let Some(chunks) = discovery.get_chunks(ChunkId::MTXF) {
             if let Some(chunk_info) = chunks.first() {
-                reader.seek(SeekFrom::Start(chunk_info.offset + 8))?;
-                Some(MtxfChunk::read_le(reader)?)
+                // Parse from the chunk's own bytes: the until-EOF loop must stop at the
+                // chunk boundary, not at the end of the file
+                let mut cursor = read_chunk_payload(reader, chunk_info)?;
+                Some(MtxfChunk::read_le(&mut cursor)?)
             } else {
                 None
             }
@@ -285,8 +288,10 @@ pub fn parse_root_adt<R: Read + Seek>(
     let texture_params = if matches!(version, AdtVersion::MoP) {
         if let Some(chunks) = discovery.get_chunks(ChunkId::MTXP) {
             if let Some(chunk_info) = chunks.first() {
-                reader.seek(SeekFrom::Start(chunk_info.offset + 8))?;
-                Some(MtxpChunk::read_le(reader)?)
+                // Parse from the chunk's own bytes: the until-EOF loop must stop at the
+                // chunk boundary, not at the end of the file
+                let mut cursor = read_chunk_payload(reader, chunk_info)?;
+                Some(MtxpChunk::read_le(&mut cursor)?)
             } else {
                 None
             }
@@ -301,8 +306,10 @@ pub fn parse_root_adt<R: Read + Seek>(
     let blend_mesh_headers = if matches!(version, AdtVersion::MoP) {
         if let Some(chunks) = discovery.get_chunks(ChunkId::MBMH) {
             if let Some(chunk_info) = chunks.first() {
-                reader.seek(SeekFrom::Start(chunk_info.offset + 8))?;
-                Some(MbmhChunk::read_le(reader)?)
+                // Parse from the chunk's own bytes: the until-EOF loop must stop at the
+                // chunk boundary, not at the end of the file
+                let mut cursor = read_chunk_payload(reader, chunk_info)?;
+                Some(MbmhChunk::read_le(&mut cursor)?)
             } else {
                 None
             }
@@ -317,8 +324,10 @@ pub fn parse_root_adt<R: Read + Seek>(
     let blend_mesh_bounds = if matches!(version, AdtVersion::MoP) {
         if let Some(chunks) = discovery.get_chunks(ChunkId::MBBB) {
             if let Some(chunk_info) = chunks.first() {
-                reader.seek(SeekFrom::Start(chunk_info.offset + 8))?;
-                Some(MbbbChunk::read_le(reader)?)
+                // Parse from the chunk's own bytes: the until-EOF loop must stop at the
+                // chunk boundary, not at the end of the file
+                let mut cursor = read_chunk_payload(reader, chunk_info)?;
+                Some(MbbbChunk::read_le(&mut cursor)?)
             } else {
                 None
             }
@@ -333,8 +342,10 @@ pub fn parse_root_adt<R: Read + Seek>(
     let blend_mesh_vertices = if matches!(version, AdtVersion::MoP) {
         if let Some(chunks) = discovery.get_chunks(ChunkId::MBNV) {
             if let Some(chunk_info) = chunks.first() {
-                reader.seek(SeekFrom::Start(chunk_info.offset + 8))?;
-                Some(MbnvChunk::read_le(reader)?)
+                // Parse from the chunk's own bytes: the until-EOF loop must stop at the
+                // chunk boundary, not at the end of the file
+                let mut cursor = read_chunk_payload(reader, chunk_info)?;
+                Some(MbnvChunk::read_le(&mut cursor)?)
             } else {
                 None
             }
@@ -349,8 +360,10 @@ pub fn parse_root_adt<R: Read + Seek>(
     let blend_mesh_indices = if matches!(version, AdtVersion::MoP) {
         if let Some(chunks) = discovery.get_chunks(ChunkId::MBMI) {
             if let Some(chunk_info) = chunks.first() {
-                reader.seek(SeekFrom::Start(chunk_info.offset + 8))?;
-                Some(MbmiChunk::read_le(reader)?)
+                // Parse from the chunk's own bytes: the until-EOF loop must stop at the
+                // chunk boundary, not at the end of the file
+                let mut cursor = read_chunk_payload(reader, chunk_info)?;
+                Some(MbmiChunk::read_le(&mut cursor)?)
             } else {
                 None
             }
@@ -655,6 +668,19 @@ fn parse_mcnk_chunks<R: Read + Seek>(
     log::debug!("Parsed {} MCNK chunks", mcnk_chunks.len());
 
     Ok(mcnk_chunks)
+}
+
+/// Read the payload of a discovered chunk into its own buffer.
+///
+/// Chunks whose parsers read "until EOF" must be parsed from a cursor over exactly
+/// the chunk's bytes, otherwise they swallow every chunk that follows in the file.
+fn read_chunk_payload<R: Read + Seek>(
+    reader: &mut R,
+    chunk_info: &ChunkLocation,
+) -> Result<std::io::Cursor<Vec<u8>>> {
+    reader.seek(SeekFrom::Start(chunk_info.offset + 8))?; // Skip header
+    let chunk_data = read_chunk_data(reader, chunk_info.size)?;
+    Ok(std::io::Cursor::new(chunk_data))
 }
 
 /// Parse a simple chunk by ID from discovery results.
